@@ -354,6 +354,16 @@ else:
     return False"""),
     (SIM, "DEVSimulator", "check_time_unit", (), "return isinstance(time, numbers.Number)"),
     (SIM, "Simulator", "cancel_event", (), "self.event_list.remove(event)"),
+    # the life cycle (Model/DevsLife.v): setup's two guards in this order, reset, start_time = 0 for both classes
+    (SIM, "Simulator", "setup", (), """if self.time != self.start_time:
+    raise ValueError()
+if not self.event_list.is_empty():
+    raise ValueError()
+self.model = model"""),
+    (SIM, "Simulator", "reset", (), "self.event_list.clear()\nself.model = None\nself.time = self.start_time"),
+    (SIM, "ABMSimulator", "__init__", (), "super().__init__(int, 0)"),
+    (SIM, "DEVSimulator", "__init__", (), "super().__init__(float, 0.0)"),
+    (EV, "EventList", "clear", (), "self._events.clear()"),
     (EV, "EventList", "add_event", (), "heappush(self._events, event)"),
     (EV, "EventList", "remove", (), "event.cancel()"),
     (EV, "EventList", "pop_event", "all-ifs", """while self._events:
